@@ -90,8 +90,4 @@ def Schema.Acyclic (σ : Schema) : Prop :=
     (∀ s ∈ σ.structs, ∀ ty ∈ s.types, ∀ n, ty.refName = some n → rank n < rank s.name) ∧
     (∀ m ∈ σ.multimaps, ∀ ty ∈ m.types, ∀ n, ty.refName = some n → rank n < rank m.name)
 
-/-- the one class of accepted schemas whose printed form is still not parseable: without any
-    root struct everything is pruned and `package a` alone is rejected. -/
-def Schema.PrintSafe (σ : Schema) : Prop := σ.structs ≠ []
-
 end Stef.Idl
